@@ -4,10 +4,38 @@ SPEC = dict(
     coq_dir="C18",
     coq_targets=["C18/Proofs.vo", "C18/Examples.vo"],
     allowed_axioms=[],
-    level_text="(filled in below)",
-    level_note="",
-    technique="Coq proof over hand-written Gallina model + vm_compute correspondence with incremental-font-transfer",
-    modelled=[],
-    not_covered=[],
-    assumptions=[],
+    level_text=("Unbounded Coq theorems about an executable model of IFT patch application with the brotli decoder as an "
+                "arbitrary argument function (call index, input, optional dictionary, max size -> error kind or bytes): "
+                "table-keyed application yields exactly the decoder output of the first entry per tag (replacement without, diff with "
+                "the base table as dictionary), dropped tables absent, every other table byte-identical, and a compatibility-id mismatch "
+                "gives IncompatiblePatch whatever the decoder does; glyph-keyed application on the offset-array abstraction "
+                "(glyf+loca short/long instance) gives every listed glyph the FIRST patch's data padded as the offset type requires and "
+                "every other glyph its old bytes, offsets ascending/complete/representable, offset type changed only when the total does not "
+                "fit (and then to the first available type that fits), every table other than glyf/loca/IFT/IFTX byte-identical, applied-bit "
+                "update = one byte OR 1<<bit and independent of patch order; an error of apply_next_patches leaves the URI status map untouched "
+                "for EVERY decoder behaviour, success flips exactly the applied URIs; glyph-keyed patches that agree on shared glyphs give the "
+                "identical font in any permutation. The model is tied to the code on every run by evaluating it (vm_compute) on ~4800 calls of the "
+                "real PatchGroup::apply_next_patches_with_decoder (all permutations of <=4 patches, all two-call groupings, decoder failing at every "
+                "call index with every DecodeError kind, 26 kinds of malformed patch/font/status map, table-keyed drop/replace/diff/duplicates/damaged offsets). "
+                "grouping independence, the short-loca size threshold and the loca decode(encode) round trip are checked on the implementation only."),
+    level_note=("Trusted: Coq kernel; the hand-written model coq/C18/Model.v (agreement with incremental-font-transfer is checked per run, not proved); the harness "
+                "generator and its fault-injecting identity-framing decoder (modelled as test_dec). The builder is modelled glyph by glyph; the literal run-by-run "
+                "transcription build_runs is evaluated next to it on every case (runs_agree) but their equality is not proved. gvar/CFF/CFF2 header rewriting is outside the model."),
+    technique="Coq proof (induction over the builder loop, sorted-map extensionality, Permutation) over hand-written Gallina model + vm_compute correspondence with incremental-font-transfer through the public PatchGroup API",
+    modelled=["incremental-font-transfer/src/patch_group.rs: PatchGroup::apply_next_patches_with_decoder (status map, invalidating vs non-invalidating part)",
+              "incremental-font-transfer/src/font_patch.rs: FontRef::apply_table_keyed_patch, FontRef::apply_glyph_keyed_patches (compat-id checks, patch readers)",
+              "incremental-font-transfer/src/table_keyed.rs: apply_table_keyed_patch, apply_table_patch, copy_unprocessed_tables",
+              "incremental-font-transfer/src/glyph_keyed.rs: apply_glyph_keyed_patches, table_tag_list, dedup_gid_replacement_data, retained_glyphs_in_font, retained_glyphs_total_size, "
+              "patch_offset_array, OffsetArrayBuilder::build, OffsetType, GlyfAndLoca (offset_for/get/add_to_font), applied-bit marking",
+              "read-fonts/src/tables/ift.rs + generated readers: TableKeyedPatch/TablePatch/GlyphKeyedPatch/GlyphPatches::read, GlyphPatches::glyph_data_for_table (GlyphDataIterator)",
+              "write-fonts FontBuilder as a sorted finite map (add_raw = BTreeMap::insert); head.checkSumAdjustment (bytes 8..12) compared modulo"],
+    not_covered=["gvar / CFF / CFF2 add_to_font (header, shared tuples, charstrings INDEX rewriting): outside the model and not exercised (model returns class 98 if reached)",
+                 "grouping_independent (one call with ps1++ps2 vs two calls): no Coq theorem; implementation-only oracle over all two-call groupings, each call also a correspondence case",
+                 "run-by-run builder loop = glyph-by-glyph builder loop: evaluated on every case, not proved",
+                 "loca decode(encode(offsets)) = offsets and total-size = data length: implementation-only oracle (incl. fonts straddling the 131070-byte short-loca limit)",
+                 "patch selection (which URIs form the group): C19; the harness reads the group back through PatchGroup::uris()",
+                 "real brotli decoders: outside the model (decoder is a parameter)"],
+    assumptions=["decoder is a function of (call index, input, dictionary, max length) — arbitrary otherwise",
+                 "maxp/head/IFT tables of the base font are structurally valid (the harness only damages glyf/loca/maxp.numGlyphs/head.indexToLocFormat and removes tables)",
+                 "glyph ids and application bit indices are non-negative (they are unsigned in Rust); base font has no duplicate table tags"],
 )
